@@ -15,9 +15,14 @@ import (
 	"strings"
 	"time"
 
+	. "verif/harness/hlib"
+
 	"github.com/skycoin/skycoin/src/cipher"
+	"github.com/skycoin/skycoin/src/coin"
 	"github.com/skycoin/skycoin/src/visor"
+	"github.com/skycoin/skycoin/src/visor/blockdb"
 	"github.com/skycoin/skycoin/src/visor/dbutil"
+	"github.com/skycoin/skycoin/src/visor/historydb"
 )
 
 const pageSz = 4096
@@ -236,3 +241,163 @@ func c8Fork(k int, variant string) string {
 }
 
 var _ = cipher.SHA256{}
+
+// c8Rebuild (C08, "while initialising"): node F's database is extended to nBlocks blocks, one of the derived
+// structures is put into the state an upgrade or an interrupted reset leaves behind (so that the next start-up
+// must rebuild it), and the node is started on a copy with a raw snapshot at EVERY commit boundary of that
+// start-up.  Each snapshot is a possible crash state: a node restarted on it must come up, pass its own
+// verification, hold exactly the data of the node that never crashed and accept the next block.
+// The op is terminal for the history (F's chain runs ahead of the model afterwards).
+func c8Rebuild(nBlocks int, what string, seed uint64) string {
+	F := world.nodes["F"]
+	if F == nil || F.v == nil {
+		return "Rno-node"
+	}
+	defer func() {
+		world.close()
+		world = nil
+	}()
+	oldHook := dbutil.VerifCommitHook
+	dbutil.VerifCommitHook = nil
+	defer func() { dbutil.VerifCommitHook = oldHook }()
+	g := &genCtx{r: NewRng(seed), emit: func(string) {}, prec: 1, burn: 2}
+	var next *coin.SignedBlock
+	for i := 0; ; i++ {
+		hb, err := F.v.GetHeadBlock()
+		if err != nil {
+			return "R" + errCode(err)
+		}
+		t, ok := g.makeTxn(F, "")
+		if !ok {
+			return "Rno-txn"
+		}
+		sb := forgeBlock(F, coin.Transactions{t}, hb.Head.Time+1+uint64(g.r.Intn(100)), 0, nil, secKey)
+		if int(hb.Head.BkSeq)+1 >= nBlocks {
+			next = &sb // the block the restarted nodes receive afterwards
+			break
+		}
+		if err := F.v.ExecuteSignedBlock(sb); err != nil {
+			return "Rbuild:" + errCode(err)
+		}
+		if i > 4*nBlocks {
+			return "Rbuild-stuck"
+		}
+	}
+	F.db.Close()
+	F.db, F.v = nil, nil
+	// reference: the same node restarted without any damage or crash (a restart also purges invalid pool entries)
+	refPath := filepath.Join(world.dir, "rebuild-ref.db")
+	if err := copyRaw(F.path, refPath); err != nil {
+		return "R" + errCode(err)
+	}
+	ref, err := func() (string, error) {
+		rdb, err := visor.OpenDB(refPath, false)
+		if err != nil {
+			return "", err
+		}
+		defer rdb.Close()
+		rv, err := visor.New(F.cfg, rdb, nil)
+		if err == nil {
+			err = rv.Init()
+		}
+		if err != nil {
+			return "", err
+		}
+		return cipher.SumSHA256([]byte(digest(&node{name: "F", v: rv, db: rdb, path: refPath, cfg: F.cfg}))).Hex()[:16], nil
+	}()
+	if err != nil {
+		return "Rref:" + errCode(err)
+	}
+	work := filepath.Join(world.dir, "rebuild.db")
+	if err := copyRaw(F.path, work); err != nil {
+		return "R" + errCode(err)
+	}
+	db, err := visor.OpenDB(work, false)
+	if err != nil {
+		return "R" + errCode(err)
+	}
+	if err := db.Update("verif needs-rebuild", func(tx *dbutil.Tx) error {
+		switch what {
+		case "history":
+			return dbutil.Reset(tx, historydb.HistoryMetaBkt)
+		case "histtxns":
+			return dbutil.Reset(tx, historydb.TransactionsBkt)
+		case "addrtxns":
+			return dbutil.Reset(tx, historydb.AddressTxnsBkt)
+		case "addrindex":
+			if err := dbutil.Reset(tx, blockdb.UnspentPoolAddrIndexBkt); err != nil {
+				return err
+			}
+			return dbutil.Delete(tx, blockdb.UnspentMetaBkt, []byte("addr_index_height"))
+		}
+		return fmt.Errorf("unknown rebuild target %q", what)
+	}); err != nil {
+		db.Close()
+		return "R" + errCode(err)
+	}
+	// start the node on it, snapshotting every commit boundary of the start-up
+	var snaps []string
+	dbutil.VerifCommitHook = func(d *dbutil.DB, name string, err error) {
+		if err != nil || d.Path() != work {
+			return
+		}
+		dst := filepath.Join(world.dir, fmt.Sprintf("rebuild-snap-%d.db", len(snaps)))
+		if copyRaw(work, dst) == nil {
+			snaps = append(snaps, dst)
+		}
+	}
+	v, err := visor.New(F.cfg, db, nil)
+	if err == nil {
+		err = v.Init()
+	}
+	dbutil.VerifCommitHook = nil
+	if err != nil {
+		db.Close()
+		return "Rstart:" + errCode(err)
+	}
+	full := cipher.SumSHA256([]byte(digest(&node{name: "F", v: v, db: db, path: work, cfg: F.cfg}))).Hex()[:16]
+	db.Close()
+	if full != ref {
+		return "Rrebuilt-differs"
+	}
+	// restart from every boundary (all of them when few, else the first 12 and the last 4)
+	for i, s := range snaps {
+		if len(snaps) > 16 && i >= 12 && i < len(snaps)-4 {
+			continue
+		}
+		path := filepath.Join(world.dir, "R.db")
+		os.Remove(path)
+		if err := copyRaw(s, path); err != nil {
+			return "R" + errCode(err)
+		}
+		res := func() string {
+			rdb, err := visor.OpenDB(path, false)
+			if err != nil {
+				return "open:" + errCode(err)
+			}
+			defer rdb.Close()
+			rv, err := visor.New(F.cfg, rdb, nil)
+			if err == nil {
+				err = rv.Init()
+			}
+			if err != nil {
+				return "restart:" + errCode(err)
+			}
+			if err := visor.CheckDatabase(rdb, pubKey, nil); err != nil {
+				return "verify:" + errCode(err)
+			}
+			rn := &node{name: "R", v: rv, db: rdb, path: path, cfg: F.cfg}
+			if cipher.SumSHA256([]byte(digest(rn))).Hex()[:16] != ref {
+				return "state-differs"
+			}
+			if err := rv.ExecuteSignedBlock(*next); err != nil {
+				return "next-block:" + errCode(err)
+			}
+			return ""
+		}()
+		if res != "" {
+			return fmt.Sprintf("Rcrash-at-commit-%d-of-%d:%s", i+1, len(snaps), res)
+		}
+	}
+	return fmt.Sprintf("Rok N%d", len(snaps))
+}
